@@ -45,7 +45,8 @@ def directed(rng: random.Random) -> dict:
     body: list = [{"k": "org", "e": E(rng.choice([0x8000, 0x018000, 0xC08000 if False else 0x028123]))}]
     kind = rng.choice(["shadow_chain", "sibling_reuse", "qualified_forward", "qualified_backward", "leak_inner", "leak_sibling", "leak_macro", "leak_macro_qualified",
                        "leak_loop", "symbol_kinds", "named_in_named", "macro_local_vs_outer", "shadow_unsized", "block_if_label", "named_in_loop", "named_in_macro",
-                       "const_shadowed_by_later_inner", "symbol_kinds_unsized", "parameter_names_at_call_site", "application_expanding_to_nothing", "namespace_reopened", "self_qualified"])
+                       "const_shadowed_by_later_inner", "symbol_kinds_unsized", "parameter_names_at_call_site", "application_expanding_to_nothing", "namespace_reopened", "self_qualified",
+                       "same_scope_name_nested_later", "leak_named_scope_in_anonymous", "chain_through_empty_scopes"])
     expect_reject = False
     nop = {"k": "ins", "m": "nop", "shape": "imp", "sz": "", "e": None}
     if kind == "shadow_chain":
@@ -144,6 +145,49 @@ def directed(rng: random.Random) -> dict:
         inner += [{"k": "block", "b": [dl(*[f"{ns}.{mname}" for mname in members])]}]
         body[0] = {"k": "org", "e": E(0x8000)}
         body += [{"k": "scope", "n": ns, "b": inner}, dl(*[f"{ns}.{mname}" for mname in members])]
+    elif kind == "same_scope_name_nested_later":
+        # a named scope exports to the scope that encloses it, no further: a second scope of the same name inside a block, a loop or a
+        # macro application further down does not replace what the outer one exported
+        top = {"k": "scope", "n": "menu", "b": [lab("draw"), nop, {"k": "assign", "n": "kk", "e": E(1)}, lab("tick"), nop]}
+        inner_scope = lambda: {"k": "scope", "n": "menu", "b": [nop, nop, lab("draw"), nop, {"k": "assign", "n": "kk", "e": E(2)}]}  # noqa: E731
+        wrap = rng.choice(["block", "for", "macro", "block_in_block"])
+        if wrap == "block":
+            nested = [{"k": "block", "b": [inner_scope(), dl("menu.draw"), {"k": "data", "d": "db", "es": [E("menu.kk")]}]}]
+        elif wrap == "block_in_block":
+            nested = [{"k": "block", "b": [nop, {"k": "block", "b": [inner_scope(), dl("menu.draw")]}, dl("menu.draw")]}]
+        elif wrap == "for":
+            nested = [{"k": "for", "v": "itM", "a": E(0), "b": E(2), "body": [inner_scope(), dl("menu.draw")]}]
+        else:
+            nested = [{"k": "macro", "n": "widget", "ps": [], "b": [inner_scope(), dl("menu.draw")]}, {"k": "call", "n": "widget", "as": []}, {"k": "call", "n": "widget", "as": []}]
+        refs = [dl("menu.draw", "menu.tick"), {"k": "data", "d": "db", "es": [E("menu.kk")]}]
+        if rng.random() < 0.5:
+            body += refs + [top] + refs + nested + refs
+        else:
+            body += refs + nested + refs + [top] + refs
+    elif kind == "leak_named_scope_in_anonymous":
+        expect_reject = True
+        inner_scope = {"k": "scope", "n": "menu", "b": [lab("draw"), nop]}
+        wrap = rng.choice(["block", "for", "macro"])
+        if wrap == "block":
+            body += [{"k": "block", "b": [inner_scope, dl("menu.draw")]}]
+        elif wrap == "for":
+            body += [{"k": "for", "v": "itM", "a": E(0), "b": E(2), "body": [inner_scope]}]
+        else:
+            body += [{"k": "macro", "n": "widget", "ps": [], "b": [inner_scope]}, {"k": "call", "n": "widget", "as": []}]
+        body += [dl("menu.draw")]
+        if rng.random() < 0.5:
+            body[-1], body[1] = body[1], body[-1]
+    elif kind == "chain_through_empty_scopes":
+        # scopes that define nothing themselves (bare blocks, applications of macros without parameters, named scopes without members) stand
+        # between the reference and the definition
+        body += [{"k": "assign", "n": "kk", "e": E(5)}, lab("anchor"), nop, {"k": "sym", "n": "ss", "e": E("anchor", "+", 1)},
+                 {"k": "macro", "n": "pm", "ps": [], "b": [dl("anchor", "later"), {"k": "data", "d": "db", "es": [E("kk")]}]},
+                 {"k": "macro", "n": "pm2", "ps": [], "b": [{"k": "call", "n": "pm", "as": []}, {"k": "if", "c": E("kk", "+", 1), "t": [{"k": "data", "d": "db", "es": [E(0xAA)]}], "e": [{"k": "data", "d": "db", "es": [E(0x55)]}]}]},
+                 {"k": "block", "b": [{"k": "block", "b": [dl("anchor", "ss", "later"), {"k": "data", "d": "db", "es": [E("kk", "-", 1)]}, {"k": "block", "b": [{"k": "call", "n": "pm2", "as": []}]}]}]},
+                 {"k": "block", "b": [{"k": "call", "n": "pm", "as": []}]},
+                 {"k": "scope", "n": "hollow", "b": [{"k": "block", "b": [{"k": "data", "d": "db", "es": [E("kk")]}, dl("later")]}, {"k": "call", "n": "pm2", "as": []}]},
+                 {"k": "for", "v": "itC", "a": E(0), "b": E(2), "body": [{"k": "block", "b": [{"k": "block", "b": [{"k": "data", "d": "db", "es": [E("itC", "+", "kk")]}]}]}]},
+                 lab("later"), nop]
     elif kind == "sibling_reuse":
         for i in range(rng.randint(2, 4)):
             body.append({"k": "block", "b": [dl("loop1"), lab("loop1"), nop, dl("loop1"), {"k": "block", "b": [dl("loop1")]}]})
